@@ -140,6 +140,72 @@ def gen(rng, isa, script=None, load_via=None):
                                      "n": len(lines), "env": {k: v for k, v in env.items()}, "store": (B, I, S, D), "load": (B2, I2, S2, D2)}
 
 
+def gen_wb(rng):
+    """AArch64 kernels with pre-/post-indexed (write-back) addressing on the store, in between, and on the load itself.
+    returns (text, equal?) -- equal: the last line's load provably reads the location the first line stores to.
+    Symbolic interpretation: register -> (origin register, constant offset) | None (unknown)."""
+    regs = ["x1", "x2", "x3"]
+    env = {r: (r, 0) for r in regs}
+    B = rng.choice(regs)
+    D = rng.choice([8, 16, -8, 24])
+    P = rng.choice([8, 16, 32])
+    form = rng.choice(["base", "disp", "pre", "post", "post", "pre"])
+    if form == "base":
+        lines, a_s = ["str x9, [%s]" % B], 0
+    elif form == "disp":
+        lines, a_s = ["str x9, [%s, #%d]" % (B, D)], D
+    elif form == "pre":
+        lines, a_s = ["str x9, [%s, #%d]!" % (B, D)], D
+        env[B] = (B, D)
+    else:
+        lines, a_s = ["str x9, [%s], #%d" % (B, P)], 0
+        env[B] = (B, P)
+
+    def bump(r, k):
+        if env[r]:
+            env[r] = (env[r][0], env[r][1] + k)
+    for _ in range(rng.choice([0, 0, 1, 1, 2, 3])):
+        R = rng.choice([B, B, rng.choice(regs)])
+        K = rng.choice([8, 16, 4])
+        k = rng.random()
+        if k < 0.2:
+            lines.append("add %s, %s, #%d" % (R, R, K)); bump(R, K)
+        elif k < 0.35:
+            lines.append("sub %s, %s, #%d" % (R, R, K)); bump(R, -K)
+        elif k < 0.55:
+            lines.append("ldr x13, [%s], #%d" % (R, K)); bump(R, K)
+        elif k < 0.72:
+            lines.append("ldr x13, [%s, #%d]!" % (R, K)); bump(R, K)
+        elif k < 0.8:
+            lines.append("ldr x13, [%s, #%d]" % (R, K))
+        elif k < 0.88:
+            lines.append("mul %s, %s, x10" % (R, R)); env[R] = None
+        elif k < 0.94:
+            R2 = rng.choice([r for r in regs if r != R])
+            lines.append("add %s, %s, #%d" % (R, R2, K)); env[R] = (env[R2][0], env[R2][1] + K) if env[R2] else None
+        else:
+            lines.append("add x11, x11, x10")
+    cands = [r for r in regs if env[r] and env[r][0] == B]
+    want = rng.random() < 0.6 and cands
+    B2 = rng.choice(cands) if want else rng.choice(regs)
+    need = (a_s - env[B2][1]) if (env[B2] and env[B2][0] == B) else rng.choice([0, 8])
+    if not want and rng.random() < 0.7:
+        need += rng.choice([8, -8, 16])
+    lform = rng.choice(["plain", "plain", "pre", "post"])
+    if lform == "post" and need != 0:
+        lform = "plain"
+    if lform == "pre" and need == 0:
+        lform = "plain"
+    if lform == "post":
+        lines.append("ldr x12, [%s], #%d" % (B2, P)); a_l = 0
+    elif lform == "pre":
+        lines.append("ldr x12, [%s, #%d]!" % (B2, need)); a_l = need
+    else:
+        lines.append(("ldr x12, [%s, #%d]" % (B2, need)) if need or rng.random() < 0.5 else "ldr x12, [%s]" % B2); a_l = need
+    eq = bool(env[B2]) and env[B2][0] == B and env[B2][1] + a_l == a_s
+    return "\n".join(lines) + "\n", eq
+
+
 def concrete_differs(info, rng):
     """random register files: do store and load addresses differ?  (refutes a spurious link)"""
     B, I, S, D = info["store"]
@@ -256,6 +322,36 @@ def run(ctx):
                 ctx.violation("store-load-edge-spurious", "%s: dependency reported although the addresses differ: %s"
                               % (arch, text.replace("\n", " ; ")), rep)
         cases.append(case)
+    # AArch64 write-back family: pre-/post-indexed store, pre-/post-indexed accesses in between, pre-/post-indexed load
+    wb_hist = {"equal": 0, "different": 0}
+    for i in range(ctx.n(120, 1500)):
+        ms = [m for m in A64_MODELS if m in avail]
+        arch = ctx.rng.choice(ms[:4] if ctx.tier == "quick" else ms)
+        if arch not in pipes:
+            pipes[arch] = deps.Pipeline(ctx, "aarch64", arch=arch)
+        text, eq = gen_wb(ctx.rng)
+        rep = {"isa": "aarch64", "arch": arch, "text": text}
+        try:
+            case, kernel, dg = deps.build_case(pipes[arch], text, False, with_lcd=False, with_cp=False)
+            instrs = [k for k in kernel if k.mnemonic is not None]
+            found = [d.line_number for d, f in dg.find_depending(instrs[0], instrs[1:]) if "storeload_dep" in f]
+        except Exception as e:  # noqa
+            ctx.violation("memdep-raises", "analysis of a store/load kernel raises %r" % e, rep)
+            continue
+        case["origin"] = "write-back family on " + arch
+        ctx.count()
+        last = instrs[-1].line_number
+        wb_hist["equal" if eq else "different"] += 1
+        if eq:
+            ctx.nontriv(text)
+            if last not in found:
+                ctx.violation("store-load-edge-missing", "%s: load provably reads the location stored by line 1 but no dependency: %s"
+                              % (arch, text.replace("\n", " ; ")), rep)
+        elif last in found:
+            ctx.violation("store-load-edge-spurious", "%s: dependency reported although the addresses differ: %s"
+                          % (arch, text.replace("\n", " ; ")), rep)
+        cases.append(case)
+    ctx.coverage["write_back_family"] = wb_hist
     # symbolic displacement (crash class fixed in /repo)
     for isa, arch, text in (("x86", "zen2", "movq %rax, foo(%rip)\nmovq 8(%rbx), %rcx\n"), ("aarch64", "a64fx", "str x1, [x2, :lo12:foo]\nldr x3, [x4, #8]\n")):
         if arch in avail:
@@ -269,10 +365,20 @@ def run(ctx):
                 ctx.violation("memdep-symbolic-displacement-raises", "%s: %r on %s" % (arch, e, text.replace("\n", " ; ")), {"isa": isa, "arch": arch, "text": text})
     ctx.coverage["case_kinds"] = hist
     depcheck.run_shards(ctx, cases, "generated", size=20)
+    regchanges(ctx)
+
+
+def regchanges(ctx):
+    """get_reg_changes + the ISA `operation:` strings inside the model (harness/regchg.py, PropsGen/C06ops.v)"""
+    import regchg
+    regchg.run(ctx)
 
 
 def replay(ctx, obj):
     r = obj["replay"]
+    if r.get("regchg"):
+        import regchg
+        return regchg.replay(ctx, r)
     if "arch" not in r:
         return
     pipe = deps.Pipeline(ctx, r["isa"], arch=r["arch"])
